@@ -3298,10 +3298,6 @@ func (s *TreeShapeListener) EnterEnum(ctx *parser.EnumContext) {
 
 // ExitEnum is called when production enum is exited.
 func (s *TreeShapeListener) ExitEnum(ctx *parser.EnumContext) {
-	if s.currentApp().Types[s.currentTypePath.Get()] == nil {
-		return
-	}
-	s.applyAnnotations(ctx.AllAnnotation())
 	s.popScope()
 }
 
